@@ -174,6 +174,11 @@ var handScripts = []item{
 	{Tag: "var:lambda-in-lambda", Edge: "stream", Src: "var a = lambda: \"x\" + 1\nvar b = lambda: a * 2\nstream\n    |from()\n    |where(lambda: b > 3 AND (a - 1) < 2)\n"},
 	{Tag: "var:node-vars", Edge: "stream", Src: "var data = stream\n    |from()\n        .measurement('m')\nvar w = data\n    |window()\n        .period(10s)\n        .every(10s)\nw\n    |mean('v')\nw\n    |max('v')\ndata\n    |log()\n"},
 	{Tag: "var:union-join", Edge: "stream", Src: "var a = stream\n    |from()\n        .measurement('a')\nvar b = stream\n    |from()\n        .measurement('b')\nvar c = stream\n    |from()\n        .measurement('c')\na\n    |union(b, c)\n    |log()\nb\n    |join(c, a)\n        .as('b', 'c', 'a')\n        .tolerance(1s)\n    |log()\n"},
+	{Tag: "var:join-two", Edge: "stream", Src: "var l = stream\n    |from()\n        .measurement('l')\nvar r = stream\n    |from()\n        .measurement('r')\nl\n    |join(r)\n        .as('left', 'right')\n        .tolerance(1s)\n    |log()\n"},
+	{Tag: "var:join-three", Edge: "stream", Src: "var a = stream\n    |from()\n        .measurement('a')\nvar b = stream\n    |from()\n        .measurement('b')\nvar c = stream\n    |from()\n        .measurement('c')\nb\n    |join(c, a)\n        .as('b', 'c', 'a')\n    |log()\n"},
+	{Tag: "var:union-two", Edge: "stream", Src: "var l = stream\n    |from()\n        .measurement('l')\nvar r = stream\n    |from()\n        .measurement('r')\n    |window()\n        .period(10s)\n        .every(10s)\n    |mean('v')\nl\n    |union(r)\n    |log()\n"},
+	{Tag: "var:fork", Edge: "stream", Src: "var data = stream\n    |from()\n        .measurement('m')\ndata\n    |where(lambda: \"a\" > 1)\n    |log()\ndata\n    |where(lambda: \"a\" < 1)\n    |httpOut('low')\n"},
+	{Tag: "batch:join", Edge: "batch", Src: "var a = batch\n    |query('SELECT v FROM db.rp.a')\n        .period(10s)\n        .every(10s)\nvar b = batch\n    |query('SELECT v FROM db.rp.b')\n        .period(10s)\n        .every(10s)\na\n    |join(b)\n        .as('a', 'b')\n    |log()\n"},
 	{Tag: "var:stats", Edge: "stream", Src: "var data = stream\n    |from()\ndata\n    |stats(10s)\n        .align()\n    |log()\ndata\n    |log()\n"},
 	{Tag: "var:reassign-chain", Edge: "stream", Src: "var x = stream\n    |from()\n    |window()\n        .period(1m)\n        .every(1m)\nvar y = x|count('v')\ny|log()\n"},
 	{Tag: "template:typed-vars", Edge: "stream", Src: "// which measurement\nvar m string\n// how long\nvar p = 10s\nvar thr float\nvar crit lambda\nvar tags list\nvar re regex\nvar n int\nvar flag bool\nvar d duration\nstream\n    |from()\n        .measurement(m)\n        .groupBy(tags)\n        .where(lambda: \"h\" =~ re)\n    |window()\n        .period(p)\n        .every(d)\n    |mean('v')\n    |where(crit)\n    |where(lambda: \"mean\" > thr AND flag)\n    |sample(n)\n",
